@@ -33,7 +33,12 @@ func TestC11_Mgrx(t *testing.T) {
 		var pattern []string
 		localActed, remoteActed := false, false
 		for i := 0; i < n; i++ {
-			act := rapid.SampledFrom([]string{"local-pause", "local-resume", "remote-pause", "remote-resume"}).Draw(t, "act")
+			acts := []string{"local-pause", "local-resume", "remote-pause", "remote-resume"}
+			if !selfI {
+				// any other message the responder sends restates its pause state: the initiator reads it as such
+				acts = append(acts, "local-voucher-result")
+			}
+			act := rapid.SampledFrom(acts).Draw(t, "act")
 			viaTransport := rapid.Bool().Draw(t, "viaTransport")
 			trFail := rapid.IntRange(0, 5).Draw(t, "transportFails") == 0
 			if trFail {
@@ -47,6 +52,11 @@ func TestC11_Mgrx(t *testing.T) {
 				err = r.mgr.PauseDataTransferChannel(bg(), c.chid)
 			case "local-resume":
 				err = r.mgr.ResumeDataTransferChannel(bg(), c.chid)
+			case "local-voucher-result":
+				trFail = false
+				r.tr.SetErr("pause", nil)
+				r.tr.SetErr("resume", nil)
+				err = r.mgr.SendVoucherResult(bg(), c.chid, datatransfer.TypedVoucher{Type: "T/r", Voucher: basicnode.NewString(fmt.Sprint("vr", i))})
 			case "remote-pause", "remote-resume":
 				var m datatransfer.Message
 				if selfI {
@@ -103,6 +113,17 @@ func TestC11_Mgrx(t *testing.T) {
 				if len(resumes) != 1 || resumes[0].Msg == nil || !resumes[0].Msg.IsUpdate() || resumes[0].Msg.IsPaused() || resumes[0].Msg.IsRequest() != selfI || resumes[0].Msg.TransferID() != c.chid.ID {
 					mfail(t, log, "C11/local-resume-transport", "local resume must call the transport once with an Update(un-paused) %s", map[bool]string{true: "request", false: "response"}[selfI])
 				}
+			case "local-voucher-result":
+				if err != nil || len(sent) != 1 || sent[0].Msg.IsRequest() || sent[0].To != c.other || sent[0].Msg.TransferID() != c.chid.ID {
+					mfail(t, log, "C11/voucher-result-message", "SendVoucherResult: err=%v, %d messages", err, len(sent))
+				}
+				if sent[0].Msg.IsPaused() != R {
+					mfail(t, log, "C11/voucher-result-pause-announcement", "the responder is paused=%v but its voucher-result message says paused=%v: the initiator would record a %s that never happened", R, sent[0].Msg.IsPaused(), map[bool]string{true: "pause", false: "resume"}[sent[0].Msg.IsPaused()])
+				}
+				if len(calls) != 0 {
+					mfail(t, log, "C11/voucher-result-touched-transport", "SendVoucherResult made %d transport calls", len(calls))
+				}
+				sp.Class("voucher_result_restates_pause_state")
 			case "remote-pause":
 				remoteActed = true
 				if selfI {
